@@ -713,6 +713,13 @@ class BlePairing(AbstractPairing):
             # We had a successful decrypt, so we can update the state_num
             self.description.state_num = gsn
             char = self.accessories.aid(BLE_AID).characteristics.iid(iid)
+            if char is None:
+                logger.debug(
+                    "%s: Received notification for unknown characteristic iid=%s, ignoring",
+                    self.name,
+                    iid,
+                )
+                return
 
             results = {(BLE_AID, iid): {"value": from_bytes(char, value)}}
             logger.debug("%s: Received notification: results = %s", self.name, results)
